@@ -1172,6 +1172,97 @@ def check_ld(ts, rts, acc, case):
                             acc.ev(1, nt)
                             if msg:
                                 acc.fail("ld:r2", f"LdCalculator.{via}({a},{b}): {msg}", case)
+                check_ld_histories(ts, rts, acc, case)
+
+
+def check_ld_histories(ts, rts, acc, case):
+    """Every two-call history on ONE LdCalculator: a first r2_array that stops early (max_sites=1) or
+    runs to the end, then any r2_array; the second answer must be the one a fresh calculator gives
+    (= the reference r2 values), whatever the first call left behind."""
+    import tskit
+
+    S = len(rts.sites)
+    if S < 3:
+        return
+    calls = [(a, d, ms) for a in range(S) for d in (tskit.FORWARD, tskit.REVERSE) for ms in (None, 1)]
+
+    def expected(a, d, ms):
+        bs = list(range(a + 1, S)) if d == tskit.FORWARD else list(range(a - 1, -1, -1))
+        if ms is not None:
+            bs = bs[:ms]
+        return to_arr([RS.r2(rts, a, b) for b in bs])
+
+    exp = {c: expected(*c) for c in calls}
+    for c1 in calls:
+        for c2 in calls:
+            ld = tskit.LdCalculator(ts)
+            try:
+                ld.r2_array(c1[0], direction=c1[1], max_sites=c1[2])
+                got = ld.r2_array(c2[0], direction=c2[1], max_sites=c2[2])
+            except Exception as e:  # noqa
+                acc.ev(1, False)
+                acc.fail("ld:history:exception", f"r2_array{c1} ; r2_array{c2} raised {e!r}", case)
+                continue
+            e = exp[c2]
+            if len(got) != len(e):
+                acc.ev(1, True)
+                acc.fail("ld:history:length", f"r2_array{c1} ; r2_array{c2} returned {len(got)} values, expected {len(e)}", case)
+                continue
+            msg, nt = mismatch(got, e) if len(e) else (None, False)
+            acc.ev(1, nt)
+            if msg:
+                acc.fail("ld:history:r2", f"r2_array(a, direction, max_sites) = {c1} then {c2} on the same calculator: {msg}", case)
+
+
+# ====================================================================== part: LD calculator histories
+LDH_SETS = [(0, 1), (0, 1, 2), (1, 2), (2, 3)]
+LDH_SITE_PATTERNS = [("X", 0), ("X", "Y"), (3, "X")]
+
+
+def ldhist_tables(sets, pats):
+    """Four leaf samples; node 4 (X) is the parent of `sets[j]` in tree j, node 5 (Y) of the other leaves,
+    node 6 the root; two sites per tree, each with one mutation over X, Y or a leaf."""
+    import tskit
+
+    G = len(sets)
+    tc = tskit.TableCollection(float(5 * G))
+    for _ in range(4):
+        tc.nodes.add_row(flags=1, time=0)
+    for t in (1, 2, 3):
+        tc.nodes.add_row(flags=0, time=t)
+    for j, A in enumerate(sets):
+        l, r = 5.0 * j, 5.0 * j + 5
+        for u in range(4):
+            tc.edges.add_row(l, r, 4 if u in A else 5, u)
+        tc.edges.add_row(l, r, 6, 4)
+        tc.edges.add_row(l, r, 6, 5)
+        for q, who in enumerate(pats[j]):
+            node = {"X": 4, "Y": 5}.get(who, who)
+            sid = tc.sites.add_row(position=l + 1 + q, ancestral_state="A")
+            tc.mutations.add_row(site=sid, node=node, derived_state="T")
+    tc.sort()
+    tc.edges.squash()
+    tc.sort()
+    return tc
+
+
+def ldhist_bases(full):
+    G = 3
+    for sets in itertools.product(LDH_SETS, repeat=G):
+        for pats in itertools.product(LDH_SITE_PATTERNS, repeat=G):
+            yield {"sets": [list(x) for x in sets], "pats": [list(x) for x in pats]}, None
+
+
+def check_ldhist(desc, tc, acc):
+    tc = ldhist_tables([tuple(x) for x in desc["sets"]], [tuple(x) for x in desc["pats"]])
+    case = {"part": "ldhist", "desc": desc}
+    acc.enter(case)
+    try:
+        ts = tc.tree_sequence()
+    except Exception as e:  # noqa
+        raise RuntimeError(f"harness: ldhist base does not load: {e!r}")
+    rts = RefTS.from_tables(tc)
+    check_ld_histories(ts, rts, acc, case)
 
 
 # ====================================================================== part: tree distances
@@ -1324,6 +1415,13 @@ def placements_for(m, scheme):
         for anc in ("", "G"):
             out += [pl for pl in MU.enumerate_placements(m, 1, 3, ("", "G"), pos, ancestral=anc) if pl]
         return out
+    if scheme == "ld3":        # one mutation on every half-grid position, every assignment of nodes
+        pos = MU.site_positions(m)
+        return [[(x, "0", [(u, "1")]) for x, u in zip(pos, nodes)] for nodes in itertools.product(range(m.N), repeat=len(pos))]
+    if scheme == "ld3x":       # as ld3 with the node alphabet {oldest node, node 0}
+        pos = MU.site_positions(m)
+        return [[(x, "0", [(u, "1")]) for x, u in zip(pos, nodes)]
+                for nodes in itertools.product((m.N - 1, 0), repeat=len(pos))]
     if scheme == "mixed":      # for named/dedicated: a few single and double placements
         out = [rich_placement(m)]
         out += list(single_site_placements(m, 2, ("0", "1"), MU.site_positions(m)[1:2]))
@@ -1379,6 +1477,8 @@ def _plan(tier):
         add("ded", dict(N=3, G=3, flags="allsamples"), "rich", per=12)
         add("ded", dict(N=3, G=2), "two1", per=12, ld_only=True)
         add("ded", dict(N=4, G=1), "two1", per=40, ld_only=True)
+        add("ded", dict(N=3, G=2, flags="allsamples"), "ld3", per=2, ld_only=True)
+        add("ded", dict(N=4, G=2, flags=_flags_first3), "ld3x", per=8, ld_only=True)
         add("dist", dict(N=4, G=1), per=None, nsh=2)
         add("dist", dict(N=5, G=1), per=None, nsh=6)
         add("dist", dict(N=5, G=2, flags=_flags_first3), per=None, nsh=12)
@@ -1425,6 +1525,8 @@ def _plan(tier):
         add("ded", dict(N=3, G=2, times="weak"), "two1", per=240, ld_only=True)
         add("ded", dict(N=4, G=1, times="weak"), "two1", per=1500, ld_only=True)
         add("ded", dict(N=4, G=2, flags="allsamples"), "two1", per=100, ld_only=True)
+        add("ded", dict(N=3, G=2), "ld3", per=4, ld_only=True)
+        add("ded", dict(N=3, G=3, flags="allsamples"), "ld3", per=1, ld_only=True)
         add("dist", dict(N=4, G=1, times="weak"), per=None, nsh=8)
         add("dist", dict(N=5, G=1), per=None, nsh=2)
         add("dist", dict(N=5, G=2, flags=_flags_first3), per=None, nsh=8)
@@ -1512,6 +1614,10 @@ def shards(tier, seed):
         for k in range(n):
             specs.append(dict(part=part, b=_b_pickle(p["b"]), scheme=p["scheme"], opt=p["opt"],
                               k=k, n=n))
+    if not only or "ldhist" in only.split(","):
+        nl = 16 if tier == "quick" else 48
+        for k in range(nl):
+            specs.append(dict(part="ldhist", b=_b_pickle({}), k=k, n=nl, full=tier != "quick"))
     if not only or "tsan" in only.split(","):
         # free-running real-thread pass under the ThreadSanitizer build (see mc/tsan_pass.py)
         for (N, G) in ((3, 2), (4, 1)) if tier == "quick" else ((3, 2), (4, 1), (3, 3), (4, 2)):
@@ -1578,6 +1684,11 @@ def run_shard(spec):
     if part == "tsan":
         tsan_pass(spec, acc)
         return acc.result()
+    if part == "ldhist":
+        for i, (desc, tc) in enumerate(ldhist_bases(bool(spec.get("full")))):
+            if i % spec["n"] == spec["k"]:
+                check_ldhist(desc, tc, acc)
+        return acc.result()
     b = _b_unpickle(spec["b"])
     if part == "dist":
         check_dist(dict(spec, b=b), acc)
@@ -1598,6 +1709,9 @@ def replay(case):
         tsan_pass(case, acc)
         return acc.failures
     acc = Acc()
+    if case.get("part") == "ldhist":
+        check_ldhist(case["desc"], None, acc)
+        return acc.failures
     m = U.Member.from_desc(case["member"])
     if case["part"] == "dist":
         m2 = U.Member.from_desc(case["other"])
